@@ -62,11 +62,15 @@ func Decode(r io.ReadSeeker) (exif2.Exif, error) {
 	case imagetype.ImageCR3, imagetype.ImageAVIF:
 		bmr := isobmff.NewReader(rr)
 		defer bmr.Close()
-		bmr.ExifReader = ir.DecodeIfd
+		found := false
+		bmr.ExifReader = func(r io.Reader, h meta.ExifHeader) error {
+			found = true
+			return ir.DecodeIfd(r, h)
+		}
 		if err := bmr.ReadFTYP(); err != nil {
 			return ir.Exif, errors.Wrapf(err, "ReadFtypBox")
 		}
-		if err := bmr.ReadMetadata(); err != nil {
+		if err := readUntil(&bmr, 1, func() bool { return found }); err != nil {
 			return ir.Exif, err
 		}
 
@@ -96,17 +100,40 @@ func DecodeCR3(r io.ReadSeeker) (exif2.Exif, error) {
 
 	bmr := isobmff.NewReader(rr)
 	defer bmr.Close()
-	bmr.ExifReader = ir.DecodeIfd
+	found := false
+	bmr.ExifReader = func(r io.Reader, h meta.ExifHeader) error {
+		found = true
+		return ir.DecodeIfd(r, h)
+	}
 	if err := bmr.ReadFTYP(); err != nil {
 		return ir.Exif, errors.Wrapf(err, "ReadFtypBox")
 	}
-	if err := bmr.ReadMetadata(); err != nil {
-		return ir.Exif, err
-	}
-	if err := bmr.ReadMetadata(); err != nil {
+	if err := readUntil(&bmr, 2, func() bool { return found }); err != nil {
 		return ir.Exif, err
 	}
 	return ir.Exif, nil
+}
+
+// maxLeadingBoxes is how many top-level boxes are read in search of the box that
+// holds the metadata: writers may put free, skip or vendor boxes in front of it.
+const maxLeadingBoxes = 8
+
+// readUntil reads top-level boxes. The first calls boxes are read as before (an
+// error ends the decode); when the metadata has not turned up by then, up to
+// maxLeadingBoxes boxes are read until done reports that it has, and an error
+// (the end of the file) only ends the search.
+func readUntil(bmr *isobmff.Reader, calls int, done func() bool) error {
+	for i := 0; i < calls; i++ {
+		if err := bmr.ReadMetadata(); err != nil {
+			return err
+		}
+	}
+	for i := calls; i < maxLeadingBoxes && !done(); i++ {
+		if err := bmr.ReadMetadata(); err != nil {
+			break
+		}
+	}
+	return nil
 }
 
 // DecodeTiff decodes a Tiff/DNG file from an io.Reader returning Exif or an error.
@@ -201,18 +228,8 @@ func PreviewCR3(r io.ReadSeeker) ([]byte, error) {
 		return nil, errors.Wrapf(err, "ReadFtypBox")
 	}
 
-	// moov
-	if err := bmr.ReadMetadata(); err != nil {
-		return nil, err
-	}
-
-	// uuid xpacket
-	if err := bmr.ReadMetadata(); err != nil {
-		return nil, err
-	}
-
-	// uuid preview
-	if err := bmr.ReadMetadata(); err != nil {
+	// moov, uuid xpacket, uuid preview - and whatever boxes a writer put between them
+	if err := readUntil(&bmr, 3, func() bool { return pr.PreviewImage != nil }); err != nil {
 		return nil, err
 	}
 
